@@ -45,8 +45,10 @@ def verify(src, name):
         rc, out = sh("cargo test --offline 2>&1 | grep -E 'test result' | head -1", cwd=wt, env=env)
         res["suite_with_patch"] = out.strip()
         rc, out = sh("git apply %s/demo.diff" % src, cwd=wt)
-        rc, out = sh("cargo test --offline seed_demo 2>&1 | grep -E 'test result' | head -1", cwd=wt, env=env)
+        rc, out = sh("cargo test --offline seed_demo 2>&1 | grep -E 'test result|stack overflow|SIGABRT|signal: ' | head -2 | tr '\\n' ' '", cwd=wt, env=env)
         res["demo_with_patch"] = out.strip()
+        if "test result" not in res["demo_with_patch"] and ("stack overflow" in res["demo_with_patch"] or "SIGABRT" in res["demo_with_patch"] or "signal: " in res["demo_with_patch"]):
+            res["demo_with_patch"] = "FAILED (the test process aborted): " + res["demo_with_patch"]
         res["ok"] = ("ok." in res["demo_without_patch"] and " 0 failed" in res["demo_without_patch"]
                      and "43 passed; 0 failed" in res["suite_with_patch"] and "FAILED" in res["demo_with_patch"])
         return res
